@@ -604,6 +604,19 @@ func runRefresh(c refCase) (what string, checks int) {
 				if extra := len(refr.ctxs) - before - finals; extra != 0 {
 					fail("%d refreshes happened after Shutdown returned", extra)
 				}
+				// the refresh that was in progress has returned by now: its error goes to the handler like any other
+				if f && !c.NilOpt {
+					checks++
+					handled := 0
+					for _, e := range log.snapshot() {
+						if e == "handle "+et {
+							handled++
+						}
+					}
+					if handled != 1 {
+						fail("the refresh of tick %d, in progress when Shutdown was called, returned %q afterwards: the ErrorHandler got it %d times, want once", i+1, et, handled)
+					}
+				}
 				return
 			}
 			if !segment(fmt.Sprintf("after tick %d", i+1), true, et, true, true) {
